@@ -15,7 +15,7 @@ Proof. reflexivity. Qed.
 (* an operation that does not mutate t leaves t alone *)
 Lemma apply_not_mut : forall t s o, mutates t o = false -> apply s o t = s t.
 Proof.
-  intros t s o H. destruct o as [p|p|p d|p|p|a b|p|]; cbn in *; try reflexivity; try discriminate;
+  intros t s o H. destruct o as [p|p|p d|p|p|a b|p|p|p off d|]; cbn in *; try reflexivity; try discriminate;
     try (apply upd_other; now rewrite N.eqb_sym).
   destruct (N.eqb a b) eqn:Eab; [reflexivity|]. cbn in H. apply orb_false_elim in H as [Ha Hb].
   rewrite upd_other by now rewrite N.eqb_sym. apply upd_other. now rewrite N.eqb_sym.
@@ -30,8 +30,10 @@ Qed.
 
 Lemma crashed_no_mut : forall t s tr s', crashed s tr s' -> no_mut t tr = true -> s' t = s t.
 Proof.
-  intros t s tr s' Hc. induction Hc as [s tr|s p d r k Hk|s o r s' Hc IH]; intro H.
+  intros t s tr s' Hc. induction Hc as [s tr|s p d r k Hk|s p off d r k Hk|s o r s' Hc IH]; intro H.
   - reflexivity.
+  - cbn in H. apply andb_prop in H as [Ho _]. apply negb_true_iff in Ho. cbn in Ho.
+    apply upd_other. now rewrite N.eqb_sym.
   - cbn in H. apply andb_prop in H as [Ho _]. apply negb_true_iff in Ho. cbn in Ho.
     apply upd_other. now rewrite N.eqb_sym.
   - cbn in H. apply andb_prop in H as [Ho Hr]. apply negb_true_iff in Ho.
@@ -44,13 +46,14 @@ Proof.
   intros t tr. induction tr as [|o r IH]; intros Hs s s' Hc.
   - inversion Hc; subst. now left.
   - cbn [atomic_replace_shape] in Hs. destruct (mutates t o) eqn:Em.
-    + destruct o as [p|p|p d|p|p|a b|p|]; try discriminate.
+    + destruct o as [p|p|p d|p|p|a b|p|p|p off d|]; try discriminate.
       apply andb_prop in Hs as [Hs Hn]. apply andb_prop in Hs as [Hb Ha].
       inversion Hc; subst.
       * now left.
       * right. rewrite run_cons, (run_no_mut t r _ Hn). now apply (crashed_no_mut t _ r).
     + inversion Hc; subst.
       * now left.
+      * left. cbn in Em. apply upd_other. now rewrite N.eqb_sym.
       * left. cbn in Em. apply upd_other. now rewrite N.eqb_sym.
       * rewrite run_cons. rewrite <- (apply_not_mut t s o Em). now apply IH.
 Qed.
@@ -69,9 +72,11 @@ Proof.
   - destruct H as [<-|[]]. constructor.
   - cbn [crash_states] in H. destruct H as [<-|H]; [constructor|].
     apply in_app_or in H as [H|H].
-    + destruct o as [p|p|p d|p|p|a b|p|]; try destruct H.
-      apply in_map_iff in H as [k [<- Hk]]. apply crash_in_write.
-      apply cuts_le in Hk. lia.
+    + destruct o as [p|p|p d|p|p|a b|p|p|p off d|]; try destruct H.
+      * apply in_map_iff in H as [k [<- Hk]]. apply crash_in_write.
+        apply cuts_le in Hk. lia.
+      * apply in_map_iff in H as [k [<- Hk]]. apply crash_in_write_at.
+        apply cuts_le in Hk. lia.
     + apply crash_later. now apply IH.
 Qed.
 
@@ -122,10 +127,17 @@ Qed.
 Lemma crashed_in_states : forall s tr s', crashed s tr s' ->
   exists s'', In s'' (crash_states 1 s tr) /\ forall q, s'' q = s' q.
 Proof.
-  intros s tr s' Hc. induction Hc as [s tr|s p d r k Hk|s o r s' Hc [s'' [Hin Heq]]].
+  intros s tr s' Hc. induction Hc as [s tr|s p d r k Hk|s p off d r k Hk|s o r s' Hc [s'' [Hin Heq]]].
   - exists s. split; [destruct tr; now left|reflexivity].
   - destruct (Nat.eq_dec k (length d)) as [->|Hne].
     + exists (apply s (Write p d)). split.
+      * cbn [crash_states]. right. apply in_or_app. right. destruct r; now left.
+      * intro q. cbn. now rewrite firstn_all.
+    + eexists. split; [|reflexivity].
+      cbn [crash_states]. right. apply in_or_app. left. apply in_map_iff. exists k. split; [reflexivity|].
+      unfold write_cuts. apply cuts_complete; lia.
+  - destruct (Nat.eq_dec k (length d)) as [->|Hne].
+    + exists (apply s (WriteAt p off d)). split.
       * cbn [crash_states]. right. apply in_or_app. right. destruct r; now left.
       * intro q. cbn. now rewrite firstn_all.
     + eexists. split; [|reflexivity].
